@@ -235,10 +235,27 @@ class Builder:
         out.append('}')
         return '\n'.join(out) + '\n'
 
+    def ghost_statics(self):
+        """file-scope ghost objects of the unit prelude (static ..., names starting with ghost_).  C gives statics the
+        value zero; a ghost stands for an ARBITRARY index / previous state, so every harness havocs them first."""
+        names = []
+        txt = re.sub(r'/\*.*?\*/', ' ', self.u.prelude or '', flags=re.S)
+        txt = '\n'.join(l for l in txt.split('\n') if not l.lstrip().startswith('#'))
+        for m in re.finditer(r'(?m)^\s*static\s+(?!const\b)(?!inline\b)((?:struct\s*\w*\s*\{[^}]*\}|[^;{}()=])*);', txt):
+            decl = re.sub(r'struct\s*\w*\s*\{[^}]*\}', 'struct_body', m.group(1))
+            for nm in re.findall(r'\b(ghost_\w+)\b', decl):
+                if nm not in names:
+                    names.append(nm)
+        return names
+
+    def havoc_ghosts(self):
+        return ''.join('    VERIF_HAVOC(%s);   /* ghost: arbitrary, not the zero a C static starts with */\n' % g
+                       for g in self.ghost_statics())
+
     def enforce(self, cn, mode):
         f, fs = self.b.funcs[cn], self.b.fnspecs[cn]
         tag = cn
-        out = ['void harness(void)', '{']
+        out = ['void harness(void)', '{'] + [l for l in self.havoc_ghosts().split('\n') if l]
         args = []
         ghost = []
         for ct, name, isref in f.params:
@@ -499,6 +516,7 @@ class Builder:
                 j = Job(u.name, '%s[%s]' % (cn, mode), 'enforce', mode, p, fl,
                         int(fs.opts.get('timeout', u.timeout)))
                 j.target = cn
+                j.split_first = 'split' in fs.opts
                 j.expect_fail.add('%s/reach' % cn)
                 jobs.append(j)
         for h in u.harnesses:
@@ -514,7 +532,7 @@ class Builder:
                     repl = h.opts.get('replace')
                     replaced = repl.split(',') if repl else []
                     roots = [c for c in b.funcs if re.search(r'\b%s\b' % re.escape(c), h.body)]
-                body = 'void harness(void)\n{\n    verif_thrown = 0;\n' + h.body + \
+                body = 'void harness(void)\n{\n' + self.havoc_ghosts() + '    verif_thrown = 0;\n' + h.body + \
                        '\n    __CPROVER_assert(0, "%s/reach");\n}\n' % h.name
                 body = body.replace('LEMMA_OBL(', '__CPROVER_assert(')
                 roots_needed = [r for r in roots if r not in replaced]
